@@ -246,10 +246,51 @@ fn strategy() -> impl Strategy<Value = C20Case> {
         })
 }
 
+/// puppet sender delivering arbitrary (overlapping, duplicated, out-of-order, unaligned) segments, each followed by a
+/// keep-alive prompt: the receiver's reported progress must be the number of distinct bytes it holds
+fn puppet_overlaps(seed: u64) -> C20Case {
+    let mut rng = Prng::new(seed);
+    let seg = *rng.pick(&[16u16, 32, 64]);
+    let cfg = CfgSpec { seg, max_count: 3, ti: 30, ta: 5, tn: 5, crc: rng.chance(1, 4), closure: false, null_checksum: false, nak: NakSpec { immediate: rng.chance(1, 2), delay_ms: 0 }, handlers: vec![] };
+    let mut sc = Scenario::two_entities(cfg.clone(), cfg);
+    sc.entities[0].present = false;
+    sc.seed = rng.next();
+    let size = 40 + rng.below(200) as u32;
+    sc.puts.push(simple_put(size, ContentClass::Random, rng.next(), false));
+    let content = sc.puts[0].file.as_ref().unwrap().bytes();
+    let pup = crate::puppet::Pup::for_put(&sc, 0);
+    let mut t = 10u64;
+    let inject = |sc: &mut Scenario, t: u64, bytes: Vec<u8>| {
+        sc.actions.push(Action { trigger: Trigger::AtMs(t), entity: 0, kind: ActionKind::Inject { to: 1, as_from: 0, bytes } });
+    };
+    inject(&mut sc, t, pup.metadata(size as u64, "src.bin", "dst.bin", false, false, vec![]));
+    let n = 3 + rng.below(8);
+    let mut starts: Vec<u64> = vec![0];
+    for _ in 0..n {
+        t += 20;
+        // offsets: often the start of an earlier segment, or its end, or anywhere
+        let off = match rng.below(4) {
+            0 => *rng.pick(&starts),
+            1 => rng.below(size as u64),
+            _ => (rng.below(size as u64 / 8 + 1) * 8).min(size as u64 - 1),
+        };
+        let len = (1 + rng.below(3 * seg as u64 / 2 + 8)).min(size as u64 - off).min(seg as u64 * 2);
+        starts.push(off);
+        starts.push(off + len);
+        starts.retain(|x| *x < size as u64);
+        inject(&mut sc, t, pup.data(off, &content[off as usize..(off + len) as usize]));
+        inject(&mut sc, t + 8, pup.prompt(false));
+    }
+    sc.horizon_ms = t + 500;
+    sc.stop_when_quiet = false;
+    C20Case { sc }
+}
+
 pub fn run(ctx: &mut Ctx) {
     ctx.rule = "proptest: the general acknowledged-mode scenario generator (segment sizes, contents, NAK procedures, CRC, limits, timeouts, id widths, link timing, up to 3 faults incl. duplicates) with files of \
 >= 3 segments, plus 0..3 Prompt(keep-alive) requests when the link sees datagram k of either direction, optionally a suspend/resume pair at either entity (suspension 0..4 s) and optionally a blackout of \
-either/both directions from ordinal k (provoking limit faults and abandon). Non-trivial = some figure was reported while 0 < progress < file size; distinct by scenario."
+either/both directions from ordinal k (provoking limit faults and abandon); plus a puppet-sender family: 3..10 arbitrary segments (starting at earlier segment boundaries, anywhere, or 8-aligned; up to 2 segments long, \
+overlapping, duplicated, out of order) each followed by a keep-alive prompt to a real receiver. Non-trivial = some figure was reported while 0 < progress < file size; distinct by scenario."
         .into();
     ctx.assumptions = vec![
         "window rule: a figure may correspond to any point between the last event surely processed (2 ms earlier) and what may already have been handed to the transport (2 tau + 2 ms later)".into(),
@@ -258,5 +299,11 @@ either/both directions from ordinal k (provoking limit faults and abandon). Non-
     let part = C20Part;
     ctx.run_known_replays(&part);
     let n = ctx.tier.pick(40_000u64, 500_000);
+    ctx.section = "real-daemons".into();
     ctx.drive_proptest(&part, strategy(), n, 200);
+    ctx.section = "puppet-overlapping-segments".into();
+    let n = ctx.tier.pick(20_000u64, 300_000);
+    let seed = ctx.seed;
+    ctx.drive_indexed(&part, n, false, |i| puppet_overlaps(mix(seed, i)));
+    ctx.section.clear();
 }
